@@ -1,6 +1,7 @@
 import OrdModel.Proofs.IndexInslocReveal
 import OrdModel.Proofs.IndexLiftSatC03
-import OrdModel.Proofs.IndexLiftOnSatTx
+import OrdModel.Proofs.IndexLiftOnSatChain
+import OrdModel.Proofs.IndexLiftInsValid
 /-!
 # C03 — Inscriptions move with the sat they were inscribed on
 
@@ -14,19 +15,21 @@ where a floating inscription lands (`c03_output_placement`), the sat of a new in
 (`c03_transfer_offset`, `c03_old_inscription`), the fee carry (`c03_fee_carry`), lost
 inscriptions (`c03_lost_placement`, `c03_coinbase_lost_sats`), burned / lost / unbound charms,
 and that the oracle evaluated on the implementation's dump is the stated predicate
-(`c03_oracle_sound`).  The statement over reachable states
+(`c03_oracle_sound`).
 
-    theorem c03_reachable (cfg blocks st) (hsats : cfg.indexSats) (hvalid : ValidChain cfg blocks)
-        (h : run cfg blocks = .ok st) : OnSat st
-
-is NOT proved.  Its sat-side ingredients now are (last section): C01's first-in-first-out equation
-for `indexTransactionSats` read pointwise (`c03_fifo_pointwise`), the block invariant
-`reward = subsidy + Σ fees so far` (`c03_reward_invariant`), `rangesValue (null entry) = lostSats`
-for every reachable state (`c03_null_value_invariant`), and the two compositions
-`c03_carry_points_at_sat` / `c03_lost_points_at_sat`; C04's `InsPartitioned` for reachable states
-exists too (`c04_reachable`).  What remains is the offset-tracking lift itself: an invariant
-"every listed `(seq, offset)` of every table / cache entry denotes `entries[seq].sat`" carried
-through the placement loop, `indexTx` and `flushCache` (notes/C03.md).
+The statement over reachable states of the full index model (`Index/Run.lean`) is proved in the
+last section: **`c03_reachable`** — sat index on, chain hypotheses `InsLift.InsChain` (C04's:
+distinct non-zero txids, no spend of a special outpoint outside a block's first transaction, every
+block starts with a coinbase, heights never decrease) ⇒ `OnSat st` for the state after every
+successfully indexed chain; `c03_valid_chain` for C16's `Valid.validChain`.  Its ingredients:
+C01's first-in-first-out equation for `indexTransactionSats` read pointwise
+(`c03_fifo_pointwise`), `reward = subsidy + Σ fees so far` (`c03_reward_invariant`),
+`rangesValue (null entry) = lostSats` (`c03_null_value_invariant`), the compositions
+`c03_carry_points_at_sat` / `c03_lost_points_at_sat`, C04's `InsPartitioned` for reachable states
+(`c04_reachable`), and the offset-tracking lift `Proofs/IndexLiftOnSat*.lean`: the per-entry
+invariant "every listed `(seq, offset)` of every table / cache / pending entry denotes
+`entries[seq].sat`" through the input scan, the output loop, the fee carry, the lost placement,
+the cache insert and `flushCache` (`c03_tx_step`, `c03_coinbase_step`, `c03_block_step`).
 -/
 namespace Ord.Index.Insloc
 open Ord Ord.Index
@@ -339,5 +342,91 @@ theorem c03_coinbase_step (cfg : Cfg) (hs : cfg.indexSats = true) (blk : Block)
     (hinv : BMid NOld bc) (h : indexTx cfg blk true 0 tx bc = .ok bc') :
     BEnd NOld bc' ∧ EntExt bc.st.entries bc'.st.entries :=
   indexTx_cb_step cfg hs blk tx bc bc' NOld h0 hcb hinv h
+
+open OnSatLift in
+/-- **Stage (b): one block** (`index_utxo_entries` + commit + rune pass + header).  With the sat
+index and the block's inscription pass on, no zero txid and no special outpoint spent outside the
+first transaction (`BlockPlain`), a coinbase first, and `rangesValue (null entry) = lostSats`
+before the block: if every row of the UTXO table — including the null and the unbound
+pseudo-outputs — lists its inscriptions on their sats before the block, so it does after it.
+Covers the fee carry into the coinbase queue, the lost placement at `lostSats + …`, the cache
+insert and the block-end flush (`merged`: ranges appended, lists appended). -/
+theorem c03_block_step (cfg : Cfg) (hs : cfg.indexSats = true) (st : State) (blk : Block)
+    (st' : State) (ev : List Event) (hb : BlockPlain blk)
+    (hcb : ∃ cb rest, blk.txs = cb :: rest ∧ txIsCoinbase cb = true)
+    (hon : Sched.insOnOf cfg blk = true) (hnl : NullLen st) (hU : UtxoSat st)
+    (h : applyBlock cfg st blk = .ok (st', ev)) : UtxoSat st' :=
+  applyBlock_utxoSat cfg hs st blk st' ev hb hcb hon hnl hU h
+
+open OnSatLift in
+/-- **Stage (c), per-row form**: in every reachable state (sat index on, `InsChain`) every row
+`(outpoint, entry)` of the UTXO table — real outputs, the null and the unbound pseudo-outputs —
+lists only existing inscriptions, and a listed `(seq, off)` whose inscription is bound to a sat
+`s` has `s` as the `off`-th sat of the row's ranges.  (In a block below the first inscription
+height nothing is listed at all.) -/
+theorem c03_reachable_rows (cfg : Cfg) (hs : cfg.indexSats = true) (chain : List Block) (st : State)
+    (evs : List Event) (hc : InsLift.InsChain chain) (h : run cfg chain = .ok (st, evs)) :
+    ∀ o e, (o, e) ∈ st.utxo → ∀ seq off, (seq, off) ∈ e.ins →
+      ∃ entry, st.entries[seq]? = some entry ∧ ∀ s, entry.sat = some s → (den e.ranges)[off]? = some s := by
+  intro o e hm seq off hin
+  obtain ⟨entry, h1, h2⟩ := run_utxoSat cfg hs chain st evs hc.ok (chainPlain_of_insChain hc) h (o, e) hm seq off hin
+  exact ⟨entry, h1, fun s hs' => by rw [insloc_den_eq]; exact h2 s hs'⟩
+
+/-- **C03 for every reachable state.**  After every chain (`InsLift.InsChain`: pairwise distinct
+non-zero txids, no spend of the null / unbound outpoint outside a block's first transaction, every
+block starts with a coinbase, heights never decrease) that the full index model (`run`:
+`applyBlock` folded from the empty index; sat index on) indexes successfully, every inscription
+bound to a sat is located where the sat index has that sat: its satpoint `(outpoint, offset)` in
+`SEQUENCE_NUMBER_TO_SATPOINT` names a row of the UTXO table — a real output or the null outpoint —
+and the `offset`-th sat of that row's ranges is the inscription's sat. -/
+theorem c03_reachable (cfg : Cfg) (hs : cfg.indexSats = true) (chain : List Block) (st : State)
+    (evs : List Event) (hc : InsLift.InsChain chain) (h : run cfg chain = .ok (st, evs)) : OnSat st :=
+  OnSatLift.run_onSat cfg hs chain st evs hc h
+
+/-- the same for `Reachable` states, the chain being the witness -/
+theorem c03_reachable_state (cfg : Cfg) (hs : cfg.indexSats = true) (st : State)
+    (h : ∃ chain evs, InsLift.InsChain chain ∧ run cfg chain = .ok (st, evs)) : OnSat st := by
+  obtain ⟨chain, evs, hc, hr⟩ := h
+  exact c03_reachable cfg hs chain st evs hc hr
+
+/-- **Every valid chain**: C16's chain-validity predicate implies `InsChain`, so after every
+consensus-valid chain the index (sat index on, if indexing succeeds) has every bound inscription
+on its sat; and the executable oracle evaluates to `true` on the model state. -/
+theorem c03_valid_chain (cfg : Cfg) (hs : cfg.indexSats = true) (chain : List Block) (st : State)
+    (evs : List Event) (hv : Valid.validChain chain = true) (h : run cfg chain = .ok (st, evs)) :
+    OnSat st ∧ onSatB st = true :=
+  let hc := (InsLift.insChain_of_validChain chain hv).1
+  ⟨c03_reachable cfg hs chain st evs hc h, (onSatB_iff st).2 (c03_reachable cfg hs chain st evs hc h)⟩
+
+/-! Non-vacuity of the lift: an inscription revealed in block 1 on the first sat of block 0's
+coinbase (sat 0, output `3:0`), moved in block 2 (to `5:0`) and spent to fees in block 3 (the
+coinbase pays out less than the subsidy + fee, so it lands on the null outpoint at offset 0, whose
+ranges then start with sat 0).  The chain is valid, the sat index is on, indexing succeeds, and
+the inscription is bound to sat 0. -/
+
+def osCfg : Cfg :=
+  { indexSats := true, indexAddresses := true, indexTransactions := false, indexInscriptions := true, indexRunes := false, firstInscriptionHeight := 1, jubileeHeight := 0, firstRuneHeight := 0 }
+def osCbIn : TxIn := { prev := OutPoint.null, taproot := false, confHeight := none, pushes := [] }
+def osOut (v : Nat) : TxOut := { value := v, opReturn := false, script := [1] }
+def osCb (txid : Txid) (v : Nat) : Tx := { txid := txid, inputs := [osCbIn], outputs := [osOut v], envelopes := [], artifact := none, size := 0 }
+def osEnv : Envelope :=
+  { input := 0, offset := 0, unrecognizedEven := false, duplicateField := false, incompleteField := false, pushnum := false, stutter := false, hidden := false, gallery := false, pointerField := false, pointer := none, parents := [] }
+def osSpend (txid : Txid) (prev : OutPoint) (envs : List Envelope) (outs : List TxOut) : Tx :=
+  { txid := txid, inputs := [{ prev := prev, taproot := true, confHeight := some 0, pushes := [] }], outputs := outs, envelopes := envs, artifact := none, size := 0 }
+def osChain : List Block :=
+  [{ height := 0, time := 0, hash := 100, minimumRune := 0, txs := [osCb 1 5000000000] },
+   { height := 1, time := 0, hash := 101, minimumRune := 0, txs := [osCb 2 5000000000, osSpend 3 ⟨1, 0⟩ [osEnv] [osOut 5000000000]] },
+   { height := 2, time := 0, hash := 102, minimumRune := 0, txs := [osCb 4 5000000000, osSpend 5 ⟨3, 0⟩ [] [osOut 5000000000]] },
+   { height := 3, time := 0, hash := 103, minimumRune := 0, txs := [osCb 6 5000000000, osSpend 7 ⟨5, 0⟩ [] []] }]
+
+def osView (r : Outcome (State × List Event)) : Option (List (Option Nat) × Option SatPoint × Option (Nat × Nat)) :=
+  match r with
+  | .ok (st, _) => some (st.entries.map (·.sat), AL.get st.seq2sp 0,
+      ((AL.get st.utxo OutPoint.null).map (·.ranges)).getD [] |>.head?)
+  | _ => none
+
+example : Valid.validChain osChain = true ∧ osCfg.indexSats = true ∧
+    osView (run osCfg osChain) = some ([some 0], some ⟨OutPoint.null, 0⟩, some (0, 5000000000)) := by
+  refine ⟨by decide, rfl, by decide⟩
 
 end Ord.Index.Insloc
